@@ -444,8 +444,18 @@ func Inject(t *rapid.T, in Input, k int, allowed func(InjClass) bool) ([]byte, [
 		switch style {
 		case "/*":
 			ins[off] = fmt.Sprintf("/*k%d%s*/", id, filler())
-			if rapid.IntRange(0, 7).Draw(t, "multiline") == 0 {
-				ins[off] = fmt.Sprintf("/*k%d\n second line */", id)
+			if rapid.IntRange(0, 5).Draw(t, "multiline") == 0 {
+				// block comments over several lines, in the usual layouts (the printer strips a common
+				// prefix from the continuation lines)
+				ins[off] = fmt.Sprintf(rapid.SampledFrom([]string{
+					"/*k%d\n second line */",
+					"/*\n* k%d alpha\n* beta\n*/",
+					"/*\n * k%d alpha\n * beta\n */",
+					"/*\n**k%d** bold start\nplain\n*/",
+					"/*\n\tk%d indented\n\t\tmore\n*/",
+					"/* k%d\n\n   blank line above */",
+					"/*\n#k%d\n//not a comment\n*/",
+				}).Draw(t, "mlform"), id)
 			}
 			if rapid.Bool().Draw(t, "pad") {
 				ins[off] = " " + ins[off] + " "
